@@ -10,6 +10,13 @@ from pathlib import Path
 from .pdb2sql_base import pdb2sql_base
 
 
+def _to_sql_value(v):
+    """Convert a NumPy scalar to the Python value sqlite3 can bind."""
+    if isinstance(v, np.generic):
+        return v.item()
+    return v
+
+
 class pdb2sql(pdb2sql_base):
 
     def __init__(self, pdbfile, tablename='atom', **kwargs):
@@ -659,7 +666,7 @@ class pdb2sql(pdb2sql_base):
         data = []
         for i, val in enumerate(values):
 
-            tmp_data = [v for v in val]
+            tmp_data = [_to_sql_value(v) for v in val]
 
             # here the conversion of the indexes is a bit annoying
             tmp_data += [rowID[i] + 1]
@@ -683,9 +690,11 @@ class pdb2sql(pdb2sql_base):
             >>> db.update_column('x',np.random.rand(10),index=list(range(10)))
         """
         if index is None:
-            data = [[v, i + 1] for i, v in enumerate(values)]
+            data = [[_to_sql_value(v), i + 1]
+                    for i, v in enumerate(values)]
         else:
-            data = [[v, ind + 1] for v, ind in zip(values, index)]
+            data = [[_to_sql_value(v), int(ind) + 1]
+                    for v, ind in zip(values, index)]
 
         query = 'UPDATE {tablename} SET {cn}=? WHERE rowID=?'.format(tablename=tablename,
                                                                      cn=colname)
